@@ -13,6 +13,7 @@ import (
 	"syscall"
 	"time"
 
+	"github.com/alpacahq/marketstore/v4/frontend"
 	"github.com/alpacahq/marketstore/v4/utils/io"
 
 	"verifharness/hx"
@@ -70,6 +71,20 @@ func main() {
 		case "checkpoint":
 			mark("BEG %d", i)
 			if err := in.WAL.CreateCheckpoint(); err != nil {
+				mark("ERR %d %v", i, err)
+				return
+			}
+			mark("ACK %d", i)
+		case "destroy":
+			mark("BEG %d", i)
+			resp := &frontend.MultiServerResponse{}
+			err := in.DS.Destroy(nil, &frontend.MultiKeyRequest{Requests: []frontend.KeyRequest{{Key: buckets[op.Bucket].Key()}}}, resp)
+			for _, r := range resp.Responses {
+				if err == nil && r.Error != "" {
+					err = fmt.Errorf("%s", r.Error)
+				}
+			}
+			if err != nil {
 				mark("ERR %d %v", i, err)
 				return
 			}
